@@ -21,7 +21,7 @@ from decimal import InvalidOperation
 from itertools import repeat, chain
 from warnings import warn
 
-from .grammar import PVLGrammar, ODLGrammar, PDSGrammar
+from .grammar import PVLGrammar, ODLGrammar, PDSGrammar, OmniGrammar
 from .collections import Quantity
 from .exceptions import QuantityError
 
@@ -484,8 +484,19 @@ class OmniDecoder(ODLDecoder):
     """A permissive decoder that attempts to parse all forms of
     "PVL" that are thrown at it.
 
-    Extends ODLDecoder.
+    Extends ODLDecoder, and if *grammar* is not specified, it will
+    default to an OmniGrammar() object.
     """
+
+    def __init__(self, grammar=None, quantity_cls=None, real_cls=None):
+        if grammar is None:
+            grammar = OmniGrammar()
+
+        super().__init__(
+            grammar=grammar,
+            quantity_cls=quantity_cls,
+            real_cls=real_cls
+        )
 
     def decode_non_decimal(self, value: str) -> int:
         """Extends parent function by allowing a plus or
